@@ -21,6 +21,6 @@ CONSTANTS
   FixD7 = TRUE
   FixD16 = TRUE
   FixD10a = TRUE
-  FixD20 = TRUE
+  FixD20 = FALSE
 VIEW view
-INVARIANTS TypeOK AcctInv NotifInv NotifComplete NoBadC06 NoBadC04
+INVARIANTS NoBadC04
